@@ -128,13 +128,31 @@ type World struct {
 	sawOverlong bool
 	corruptions int
 	consumers map[string]int // C10 reference model: registrations "piece/prio" -> count
+	haves     map[uint32]int // TorHave(true) events handled, per piece
+	readers   []*wreader
 	chans     []*wchan
 }
 
 type wchan struct {
-	piece uint32
-	ch    <-chan struct{}
-	closedSeen bool
+	piece     uint32
+	ch        <-chan struct{}
+	havesAt   int  // number of TorHave(true) for the piece handled before the channel was handed out
+	abandoned bool // every registration for the piece has been withdrawn since
+	dead      bool // no longer judged
+}
+
+type wreader struct {
+	r       *Reader
+	ctx     context.Context
+	cancel  context.CancelFunc
+	off, ln int64
+	pos     int64
+	busy    bool
+	done    chan struct{}
+	n       int
+	err     error
+	buf     []byte
+	closed  bool
 }
 
 func (w *World) problem(prop, key, format string, a ...any) {
@@ -337,7 +355,7 @@ func geomByName(name string) wgeom {
 
 func newWorld(cfg worldCfg) *World {
 	g := geomByName(cfg.Geom)
-	w := &World{cfg: cfg, g: g, consumers: map[string]int{}}
+	w := &World{cfg: cfg, g: g, consumers: map[string]int{}, haves: map[uint32]int{}}
 	if tr, ok := truthCache[g.Length]; ok {
 		w.truth = tr
 	} else {
@@ -441,6 +459,9 @@ func (w *World) handle(e peer.TorEvent) {
 		return
 	}
 	w.eventsHandled++
+	if h, ok := e.(peer.TorHave); ok && h.Have {
+		defer func() { w.haves[h.Index]++ }()
+	}
 	var err error
 	func() {
 		defer func() {
@@ -502,6 +523,115 @@ func (w *World) settle() {
 	}
 	for _, r := range w.remotes {
 		r.process()
+	}
+	for i, rd := range w.readers {
+		if rd.busy {
+			select {
+			case <-rd.done:
+				rd.busy = false
+				w.judgeRead(i, rd)
+			default:
+			}
+		}
+	}
+}
+
+// judgeRead: whatever a Reader returns is the true content of its window (C02/C01).
+func (w *World) judgeRead(i int, rd *wreader) {
+	if rd.n < 0 || rd.n > len(rd.buf) {
+		w.problem("C02", "C02/read-count", "reader %d: Read returned n=%d for a %d-byte buffer", i, rd.n, len(rd.buf))
+		return
+	}
+	if rd.pos+int64(rd.n) > rd.ln {
+		w.problem("C02", "C02/read-beyond-window", "reader %d (offset %d, length %d) at position %d returned %d bytes: beyond its range", i, rd.off, rd.ln, rd.pos, rd.n)
+	} else if rd.n > 0 && !bytes.Equal(rd.buf[:rd.n], w.truth[rd.off+rd.pos:rd.off+rd.pos+int64(rd.n)]) {
+		w.problem("C02", "C02/read-wrong-bytes", "reader %d at position %d returned %d bytes that differ from the true content", i, rd.pos, rd.n)
+		w.problem("C01", "C01/reader-wrong-bytes", "reader %d at position %d returned %d bytes that differ from the true content", i, rd.pos, rd.n)
+	}
+	rd.pos += int64(rd.n)
+	if rd.err == io.EOF && rd.pos != rd.ln {
+		w.problem("C02", "C02/early-eof", "reader %d reported EOF at position %d of %d", i, rd.pos, rd.ln)
+	}
+}
+
+// noteAbandon: if nobody is registered for the piece any more, every channel
+// handed out for it counts as abandoned (it must be closed, and may be).
+func (w *World) noteAbandon(idx uint32) {
+	for k, v := range w.consumers {
+		var pi, pr int
+		fmt.Sscanf(k, "%d/%d", &pi, &pr)
+		if uint32(pi) == idx && v > 0 {
+			return
+		}
+	}
+	for _, c := range w.chans {
+		if c.piece == idx {
+			c.abandoned = true
+		}
+	}
+}
+
+// checkRequests is the C10 oracle: priorities registered == the model's
+// registrations; channels closed iff verified since or abandoned.
+func (w *World) checkRequests() {
+	t := w.t
+	if w.loopDead || (w.cfg.Magnet && !t.InfoComplete()) {
+		return
+	}
+	if len(w.readers) == 0 {
+		got := map[string]int{}
+		for idx, r := range t.requested.pieces {
+			for _, p := range r.prio {
+				got[fmt.Sprintf("%d/%d", idx, p)]++
+			}
+		}
+		for k, v := range w.consumers {
+			if v != got[k] {
+				w.problem("C10", "C10/priorities-differ", "piece/priority %s is registered %d times in the torrent, consumers hold %d registrations", k, got[k], v)
+			}
+		}
+		for k, v := range got {
+			if w.consumers[k] != v {
+				w.problem("C10", "C10/priorities-differ", "piece/priority %s is registered %d times in the torrent, consumers hold %d registrations", k, v, w.consumers[k])
+			}
+		}
+	}
+	if len(t.Event) > 0 {
+		return
+	}
+	for _, c := range w.chans {
+		if c.dead {
+			continue
+		}
+		closed := false
+		select {
+		case <-c.ch:
+			closed = true
+		default:
+		}
+		verified := w.haves[c.piece] > c.havesAt
+		if len(w.readers) > 0 {
+			// real Readers hold registrations the model does not know: only
+			// the verification clause is judged
+			if !closed && verified {
+				w.problem("C10", "C10/lost-wakeup", "piece %d has been verified but a consumer waiting for it was not woken", c.piece)
+			}
+			if closed {
+				c.dead = true
+			}
+			continue
+		}
+		switch {
+		case closed && !verified && !c.abandoned:
+			w.problem("C10", "C10/spurious-wakeup", "a consumer waiting for piece %d was woken although the piece has not been verified and the piece is still wanted", c.piece)
+		case !closed && verified:
+			w.problem("C10", "C10/lost-wakeup", "piece %d has been verified but a consumer waiting for it was not woken", c.piece)
+		case !closed && c.abandoned:
+			w.problem("C10", "C10/abandoned-not-closed", "every request for piece %d was withdrawn but the completion channel was left open", c.piece)
+		}
+		if closed {
+			c.dead = true
+		}
 	}
 }
 
@@ -1136,6 +1266,94 @@ func (w *World) apply(tr string) bool {
 		}
 		w.consumers[k]--
 		w.handle(peer.TorRequest{Index: uint32(arg(1)), Priority: int8(arg(2)), Request: false})
+	case "creq": // creq:<piece>:<prio>:<want 0|1>   a consumer's request reaches the loop
+		idx, prio := uint32(arg(1)), int8(arg(2))
+		var ch chan (<-chan struct{})
+		if arg(3) != 0 {
+			ch = make(chan (<-chan struct{}), 1)
+		}
+		before := w.haves[idx]
+		w.handle(peer.TorRequest{Index: idx, Priority: prio, Request: true, Ch: ch})
+		w.consumers[fmt.Sprintf("%d/%d", idx, prio)]++
+		if ch != nil {
+			select {
+			case done, ok := <-ch:
+				if ok && done != nil {
+					w.chans = append(w.chans, &wchan{piece: idx, ch: done, havesAt: before})
+				}
+			default:
+				w.problem("C10", "C10/no-reply", "a piece request with a reply channel was handled without a reply")
+			}
+		}
+	case "cdel":
+		k := fmt.Sprintf("%d/%d", arg(1), arg(2))
+		if w.consumers[k] == 0 {
+			return false
+		}
+		w.consumers[k]--
+		w.handle(peer.TorRequest{Index: uint32(arg(1)), Priority: int8(arg(2)), Request: false})
+		w.noteAbandon(uint32(arg(1)))
+	case "complete": // the piece's blocks arrive and it is hashed (real finalisePiece)
+		idx := uint32(arg(1))
+		if w.t.Pieces.Complete(idx) {
+			return false
+		}
+		s := int64(idx) * int64(w.g.PSize)
+		w.t.Pieces.AddData(idx, 0, append([]byte{}, w.truth[s:s+int64(w.g.pieceLen(idx))]...), ^uint32(0))
+		w.call("finalisePiece", func() { finalisePiece(w.t, idx) })
+	case "fail": // a corrupt piece is hashed and discarded
+		idx := uint32(arg(1))
+		if w.t.Pieces.Complete(idx) {
+			return false
+		}
+		s := int64(idx) * int64(w.g.PSize)
+		d := append([]byte{}, w.truth[s:s+int64(w.g.pieceLen(idx))]...)
+		d[0] ^= 0xFF
+		w.t.Pieces.AddData(idx, 0, d, ^uint32(0))
+		w.call("finalisePiece", func() { finalisePiece(w.t, idx) })
+	case "setconf":
+		w.handle(peer.TorSetConf{Conf: peer.TorConf{DhtMode: config.DhtNone, UseWebseeds: arg(1) != 0}})
+	case "ropen": // ropen:<offset>:<length>
+		if len(w.readers) >= 2 {
+			return false
+		}
+		ctx, cancel := context.WithCancel(w.ctx)
+		w.readers = append(w.readers, &wreader{r: w.t.NewReader(ctx, int64(arg(1)), int64(arg(2))), ctx: ctx, cancel: cancel, off: int64(arg(1)), ln: int64(arg(2))})
+	case "rread": // rread:<reader>:<buffer size>
+		if arg(1) >= len(w.readers) {
+			return false
+		}
+		rd := w.readers[arg(1)]
+		if rd.busy || rd.closed {
+			return false
+		}
+		rd.busy = true
+		rd.done = make(chan struct{})
+		rd.buf = make([]byte, arg(2))
+		go func() {
+			rd.n, rd.err = rd.r.Read(rd.buf)
+			close(rd.done)
+		}()
+	case "rseek": // rseek:<reader>:<position>
+		if arg(1) >= len(w.readers) || w.readers[arg(1)].busy || w.readers[arg(1)].closed {
+			return false
+		}
+		rd := w.readers[arg(1)]
+		if p, err := rd.r.Seek(int64(arg(2)), io.SeekStart); err == nil {
+			rd.pos = p
+		}
+	case "rclose":
+		if arg(1) >= len(w.readers) || w.readers[arg(1)].busy || w.readers[arg(1)].closed {
+			return false
+		}
+		rd := w.readers[arg(1)]
+		rd.closed = true
+		go func() { rd.r.Close() }()
+	case "rcancel":
+		if arg(1) >= len(w.readers) || w.readers[arg(1)].closed {
+			return false
+		}
+		w.readers[arg(1)].cancel()
 	case "evict":
 		cnt := w.t.Pieces.Expire(0, nil, func(i uint32) { w.t.Have(i, false) })
 		if cnt == 0 {
@@ -1196,6 +1414,7 @@ func (w *World) checkInvariants() {
 		return
 	}
 	w.checkMetadata()
+	w.checkRequests()
 	// C16: accounting of unchoked peers; bounded upload queue
 	cnt := 0
 	for _, r := range w.remotes {
@@ -1308,6 +1527,7 @@ func (w *World) finish() {
 	if w.loopDead {
 		return
 	}
+	w.finishConsumers()
 	for _, r := range w.remotes {
 		if !r.closed {
 			r.closeConn()
@@ -1351,6 +1571,71 @@ func (w *World) finish() {
 	for _, r := range w.remotes {
 		if ev := r.p.VerifParkedEvents(); len(ev) > 0 && !w.loopDead {
 			w.problem("C09", "C09/events-left-in-exited-peer", "remote %d exited with %d events it never handed to the torrent", r.idx, len(ev))
+		}
+	}
+}
+
+// finishConsumers: every consumer moves on; a piece must remain requested only
+// as long as somebody (or the idle prefetcher) wants it.
+func (w *World) finishConsumers() {
+	if len(w.consumers) == 0 && len(w.readers) == 0 {
+		return
+	}
+	for k, v := range w.consumers {
+		var pi, pr int
+		fmt.Sscanf(k, "%d/%d", &pi, &pr)
+		for ; v > 0; v-- {
+			w.handle(peer.TorRequest{Index: uint32(pi), Priority: int8(pr), Request: false})
+		}
+		w.consumers[k] = 0
+	}
+	for _, rd := range w.readers {
+		rd.cancel()
+	}
+	synctest.Wait()
+	w.deliver(-1)
+	for i, rd := range w.readers {
+		if rd.busy {
+			select {
+			case <-rd.done:
+				rd.busy = false
+			default:
+				w.problem("C02", "C02/read-hangs-after-cancel", "reader %d: a blocked Read did not return after its context was cancelled", i)
+				continue
+			}
+		}
+		if !rd.closed {
+			rd.closed = true
+			done := make(chan struct{})
+			go func() { rd.r.Close(); close(done) }()
+			synctest.Wait()
+			w.deliver(-1)
+			select {
+			case <-done:
+			default:
+				w.problem("C17", "C17/reader-close-hangs", "reader %d: Close did not return", i)
+			}
+		}
+	}
+	synctest.Wait()
+	w.deliver(-1)
+	if w.loopDead {
+		return
+	}
+	for idx, r := range w.t.requested.pieces {
+		if len(r.prio) > 0 {
+			where := ""
+			if idx == 0 {
+				where = "/piece0"
+			}
+			w.problem("C10", "C10/leaked-priority"+where, "after every consumer withdrew and every reader was closed, piece %d is still requested at priorities %v", idx, r.prio)
+		}
+	}
+	for _, c := range w.chans {
+		select {
+		case <-c.ch:
+		default:
+			w.problem("C10", "C10/abandoned-not-closed", "a completion channel for piece %d is still open after every consumer has gone", c.piece)
 		}
 	}
 }
@@ -1418,6 +1703,18 @@ func (w *World) canon() string {
 	}
 	sort.Strings(cons)
 	fmt.Fprintf(&sb, "C %v", cons)
+	for _, c := range w.chans {
+		cl := false
+		select {
+		case <-c.ch:
+			cl = true
+		default:
+		}
+		fmt.Fprintf(&sb, "|ch%d:%v:%v:%v", c.piece, cl, c.abandoned, w.haves[c.piece] > c.havesAt)
+	}
+	for _, rd := range w.readers {
+		fmt.Fprintf(&sb, "|rd %d+%d pos=%d busy=%v closed=%v ctx=%v req=%v ri=%d", rd.off, rd.ln, rd.pos, rd.busy, rd.closed, rd.ctx.Err() != nil, rd.r.requested, rd.r.requestedIndex)
+	}
 	return sb.String()
 }
 
